@@ -50,7 +50,7 @@ func LeanStr(s string) string {
 func (f *File) Def(name, typ, val string) {
 	fmt.Fprintf(&f.buf, "def %s : %s := %s\n\n", name, typ, val)
 }
-func (f *File) Nat(name string, v uint64)  { f.Def(name, "Nat", fmt.Sprint(v)) }
+func (f *File) Nat(name string, v uint64) { f.Def(name, "Nat", fmt.Sprint(v)) }
 func (f *File) Int(name string, v int64) {
 	if v < 0 {
 		f.Def(name, "Int", fmt.Sprintf("(%d)", v))
